@@ -115,4 +115,33 @@ theorem C10_check_sound (line col : Nat) (head : Head) (body rest : List BLit) (
       CtxOk (useOf line col head body rest auxName V args Sb la ca).split pre post :=
   dupCheck_sound line col head body rest auxName V args Sb la ca pre post h
 
+/-! non-vacuity of the executable checks: `__aux_1(V1,V2) :- p(V1,V2), q(V2).` used in `h(A) :- p(A,B), q(B), r(A,B).`
+as `h(A) :- r(A,B), __aux_1(A,B).` next to another rule passes them, so `C10_factor_all_sound/complete` apply -/
+namespace C10ex
+open Proofs.C10multi Proofs.C10stm Proofs.C16stm Proofs.C11check Sem
+def atomL (n : String) (vs : List String) : BLit := .lit (.pos, .sym (.fn n (vs.map Term.var) false))
+def headL (n : String) (vs : List String) : Head := .lit (.pos, .sym (.fn n (vs.map Term.var) false))
+def c : Canon := { auxName := "__aux_1", V := ["V1", "V2"], Sb := [atomL "p" ["V1", "V2"], atomL "q" ["V2"]], la := 1, ca := 1 }
+def pl : Place := placeOf 2 1 (headL "h" ["A"]) [atomL "p" ["A", "B"], atomL "q" ["B"], atomL "r" ["A", "B"]] [atomL "r" ["A", "B"]]
+  [("V1", "A"), ("V2", "B")]
+def ctx : Prog := [.rule 3 1 (headL "g" ["A"]) [atomL "r" ["A", "A"]]]
+set_option maxRecDepth 8000 in
+theorem check : placeCheck c 2 1 (headL "h" ["A"]) [atomL "p" ["A", "B"], atomL "q" ["B"], atomL "r" ["A", "B"]] [atomL "r" ["A", "B"]]
+    [("V1", "A"), ("V2", "B")] = true ∧ ctxAvoidsCheck c ctx = true := by
+  simp [placeCheck, ctxAvoidsCheck, ctx, placeOf, c, Canon.split, Canon.use, Canon.G, Use.split, involOk, members, swaps, atomL, headL,
+    splitCheck, Split.G0, Split.Ga, Split.Gu, Split.auxB, Proofs.C16sem.auxLit, Proofs.C16sem.auxAtomTerm, iffB, blitMem,
+    blitEqb, litEqb, atomEqb, termsEqb, termEqb, bodyAvoids, blitAvoids, atomAvoids, headAvoids, nameSig, bodyScoped,
+    blitScoped, atomScoped, stdHeadGlobals, bodyGlobals, blitGlobals, litVars, litTerms, Atom.terms, Term.vars, BLit.vars,
+    BLit.terms, Head.vars, Head.terms, Proofs.C09sem.stmAvoids, renameBody, renameBLit, renameLit, renameAtom, renameTerm,
+    renameTerms, varAtomHead]
+example (P : Params) (hp : AggPersistent P) (T : Interp) (hT : Stable (stdParams P) (before c [pl] ctx) T) :
+    Stable (stdParams P) (after c [pl] ctx) (extendAll P c [pl] T) :=
+  C10_factor_all_sound P hp c [pl] (by decide)
+    (fun p hp' => by
+      rw [List.mem_singleton] at hp'
+      subst hp'
+      exact (C10_all_check_sound c _ _ _ _ _ _ ctx check.1 check.2).1)
+    ctx (C10_all_check_sound c _ _ _ _ _ _ ctx check.1 check.2).2 T hT
+end C10ex
+
 end NgoVerif
